@@ -1,4 +1,4 @@
-import BpModel
+import BpModel.All
 /- token helpers and (de)serialisation of model values for the line protocol -/
 namespace Drv
 open Bp
